@@ -20,7 +20,7 @@ CHECKS = {
             "Every shipped struct's encoder and decoder layout (field, tag, prefix style, value encoding, "
             "cardinality, order), every command's control field and the APDU framing are extracted from the "
             "resolved program and compared with independent tables; a change made to encoder and decoder "
-            "together (invisible to round-trip tests) is caught; the command tag is [CLASS, INSTR] big-endian, text is CP437, no decoder takes a legal field value for \"absent\"; the hand-written date/time container is 1F0E 04 <4 BCD> 1F0F 03 <3 BCD>; a packet decoder hands back the framing call's result unchanged. All 55 structs / 162 rows, no sampling.",
+            "together (invisible to round-trip tests) is caught; the command tag is [CLASS, INSTR] big-endian, text is CP437, no decoder takes a legal field value for \"absent\"; the hand-written date/time container is 1F0E 04 <4 BCD> 1F0F 03 <3 BCD>; a packet decoder hands back the framing call's result unchanged; a Fixed<N> BCD field's integer type holds 2N digits; LLVAR digit rules (shared with C16-d/f). All 55 structs / 162 rows, no sampling.",
             "Decides the declared layout, not the bytes each leaf encoding produces per value. " + TB),
     "C01": ("other", "5.1",
             "sibling agreement of extracted encoder/decoder tables, derives-from data flow, inverse-primitive pairing, frame-order rules over MIR",
@@ -46,7 +46,7 @@ CHECKS = {
             "All 18 sequences (12 distinct stream bodies): a protocol monitor is run over the event graph of the real coroutine "
             "body as a product construction, which covers every reply script of every length: command once, ack outcome examined, "
             "exactly one answer per packet before yield and before the next read, end exactly after the first final packet "
-            "(final set by control field from the spec tables), no transport call afterwards.",
+            "(final set by control field from the spec tables), no transport call afterwards; read_packet is the only reader of the source and follows the 3 / +2 / body plan (C04-a/b shared).",
             "The explored object is the implementation's own control-flow graph (no hand-written model). Assumes futures act only "
             "when awaited and async-stream's yield/`?` expansion. " + TB),
     "C06": ("model_checking", "5.6",
@@ -59,12 +59,12 @@ CHECKS = {
             "guard/edge-dominance, who-may-write and provenance rules over the async client bodies (MIR)",
             "Per-call facts that make the token map a refinement of the open pre-authorisations: guards dominate all terminal traffic, "
             "refusals return the documented error without traffic, the map is private and mutated only at the three allowed sites, what is "
-            "recorded is (token, StatusInformation.receipt_no of this reservation), reversals act on exactly the removed receipt number.",
+            "recorded is (token, StatusInformation.receipt_no of this reservation), reversals act on exactly the removed receipt number; the retry wrapper's await budget is per packet (C10-a shared), so a live exchange is not re-issued.",
             "The induction over call histories from these per-call facts is argued in DESIGN.md, not mechanised. " + TB),
     "C08": ("other", "5.8",
             "expression-tree comparison of request/summary construction with a wiring table; callee identity of saturating_sub",
             "The released amount is usize::saturating_sub(configured amount, final amount as usize) by resolved callee and operand "
-            "provenance; every request field and every summary field is wired from the source the specification names.",
+            "provenance; every request field and every summary field is wired from the source the specification names; the BCD fields of the packets of the exchange are wide enough for their digits (C03-a/bcd-width shared).",
             "Numeric formatting of date/time strings and the terminal's ledger are not decided. " + TB),
     "C18": ("other", "5.18",
             "edge-dominance of CardInfo constructor sites; operation-set/constant/order rules on the uid variable's definitions",
@@ -91,7 +91,7 @@ CHECKS = {
             "await-type analysis (generic argument of IntoFuture::into_future) + budget provenance + interval discharge of config arithmetic",
             "Every await point of the client is classified; raw transport awaits are accepted only inside a function whose every call "
             "is the direct argument of tokio::time::timeout; retry streams derive from take(n>0); timeouts are positive; arithmetic on "
-            "configuration values cannot overflow. All 29 await points, both budgets, every Overflow site with config operands.",
+            "configuration values cannot overflow; a deadline bounding an await inside a reply loop is computed inside that loop. All 29 await points, both budgets, every Overflow site with config operands.",
             "Wall-clock values and tokio's timer are trusted; 'finite' not 'how long'. " + TB),
     "C02": ("proof", "5.2",
             "site enumeration over the decode-path call-graph closure + guard-fact/interval/contract discharge of every panic, overflow, truncation, allocation site; loop termination classification",
@@ -115,7 +115,7 @@ CHECKS = {
             "decision-tree extraction (interval path enumeration) of writer and reader of each length style + constant/operand rules; C02 site rule on the readers",
             "Truncated prefixes are errors (all sites of the six readers discharged); BER and APDU switch points, markers, number of length "
             "bytes, byte order and data offsets agree between writer, reader and the specification; LLVAR uses exactly N base-10 digits with "
-            "masks F0/0F on both sides; Fixed<N> requires and returns exactly N.",
+            "masks F0/0F on both sides; Fixed<N> requires and returns exactly N; no defined prefix is refused once all its bytes are there (256-value case split per reader); the length bytes are computed from the length by casts only.",
             "Arithmetic inside a form (k % 10, digit weights) is out of static reach and not claimed. " + TB),
     "C17": ("other", "5.17",
             "C02 site rule on the digit decoders, checked-arithmetic shape rule, inverse-primitive and constant-set agreement rules",
